@@ -1180,3 +1180,36 @@ package regexp2
 //@   loop 1:
 //@     invariant RunnerText(r) && r.Runtextpos == old(r.Runtextpos) && r.Runtextpos <= start && start <= literalIndex && literalIndex < len(r.Runtext) && searchStart <= literalIndex && literal != nil && literal.LoopNode != nil && literal.LoopNode.Set != nil
 //@     decreases start
+
+// some prefix of the list occurs at p (ordinal or Unicode simple lower-casing; empty prefixes never count on the
+// first-rune path, always on the plain path)
+//@ spec func AnyPrefAt(text []rune, p int, prefixes [][]rune, ic bool) bool = exists k int {mark(k)} {len(prefixes[k])} :: 0 <= k && k < len(prefixes) && ite(ic, helpers.CIOccursAt(text, p, prefixes[k]), len(prefixes[k]) > 0 && helpers.OccursAt(text, p, prefixes[k]))
+
+//@ func findLeadingStringsLeftToRight(r *Runner, prefixes [][]rune, firstRunes []rune, ignoreCase bool) (b bool)
+//@   props C03 C10
+//@   requires RunnerText(r)
+//@   requires[nonempty] forall k int :: 0 <= k && k < len(prefixes) ==> len(prefixes[k]) > 0
+//@   requires[firsts] len(firstRunes) > 0 ==> forall k int :: 0 <= k && k < len(prefixes) ==> helpers.InRunes(firstRunes, prefixes[k][0])
+//@   modifies r.Runtextpos
+//@   ensures[none]  len(prefixes) == 0 ==> !b && r.Runtextpos == old(r.Runtextpos)
+//@   ensures[hit]   b ==> old(r.Runtextpos) <= r.Runtextpos && r.Runtextpos <= Latest(r) && AnyPrefAt(r.Runtext, r.Runtextpos, prefixes, ignoreCase)
+//@   ensures[first] b ==> forall p int {mark(p)} :: old(r.Runtextpos) <= p && p < r.Runtextpos ==> !AnyPrefAt(r.Runtext, p, prefixes, ignoreCase)
+//@   ensures[miss]  !b && len(prefixes) > 0 ==> r.Runtextpos == r.Runtextend && forall p int {mark(p)} :: old(r.Runtextpos) <= p && p <= Latest(r) ==> !AnyPrefAt(r.Runtext, p, prefixes, ignoreCase)
+//@   loop 0:
+//@     invariant RunnerText(r) && r.Runtextpos == old(r.Runtextpos) && r.Runtextpos <= start && len(prefixes) > 0
+//@     invariant forall p int {mark(p)} :: old(r.Runtextpos) <= p && p < start ==> !AnyPrefAt(r.Runtext, p, prefixes, ignoreCase)
+//@     decreases Latest(r) - start + 1
+//@   loop 1:
+//@     invariant RunnerText(r) && r.Runtextpos == old(r.Runtextpos) && r.Runtextpos <= start && start <= Latest(r) && len(prefixes) > 0 && -1 <= rangeindex && rangeindex < len(prefixes)
+//@     invariant forall p int {mark(p)} :: old(r.Runtextpos) <= p && p < start ==> !AnyPrefAt(r.Runtext, p, prefixes, ignoreCase)
+//@     invariant forall k int {mark(k)} {len(prefixes[k])} :: 0 <= k && k <= rangeindex ==> !ite(ignoreCase, helpers.CIOccursAt(r.Runtext, start, prefixes[k]), helpers.OccursAt(r.Runtext, start, prefixes[k]))
+//@     decreases len(prefixes) - rangeindex
+//@   loop 2:
+//@     invariant RunnerText(r) && r.Runtextpos == old(r.Runtextpos) && r.Runtextpos <= searchAt && len(prefixes) > 0 && !ignoreCase && len(firstRunes) > 0 && latest == min(Latest(r), r.Runtextend - 1)
+//@     invariant forall p int {mark(p)} :: old(r.Runtextpos) <= p && p < searchAt && p <= latest ==> !AnyPrefAt(r.Runtext, p, prefixes, ignoreCase)
+//@     decreases latest - searchAt + 1
+//@   loop 3:
+//@     invariant RunnerText(r) && r.Runtextpos == old(r.Runtextpos) && r.Runtextpos <= searchAt && searchAt <= start && start <= latest && first == r.Runtext[start] && len(prefixes) > 0 && !ignoreCase && len(firstRunes) > 0 && latest == min(Latest(r), r.Runtextend - 1) && -1 <= rangeindex && rangeindex < len(prefixes)
+//@     invariant forall p int {mark(p)} :: old(r.Runtextpos) <= p && p < start && p <= latest ==> !AnyPrefAt(r.Runtext, p, prefixes, ignoreCase)
+//@     invariant forall k int {mark(k)} {len(prefixes[k])} :: 0 <= k && k <= rangeindex ==> !helpers.OccursAt(r.Runtext, start, prefixes[k])
+//@     decreases len(prefixes) - rangeindex
